@@ -945,3 +945,23 @@ def _make_xvm():
 def xvm(module, hooks=None, budget=4 * 10 ** 7, siblings=None):
     """an XVM instance over ``module`` (sa.source.Module)"""
     return _make_xvm()(module, hooks=hooks, budget=budget, siblings=siblings)
+
+
+# ---- abstaining sections for the structural layer ---------------------------------------------------------------------
+
+class abstain:
+    """``with abstain(ctx, "getPacket/mac", "receiver/ and tamper/ (bounded)"):`` - a structural rule group that cannot read the
+    shape of the (normalised) code says so in a note and leaves the clause to the named bounded rules; it never errs and never
+    guesses.  Violations raised inside are genuine: the construct was recognised and the clause shown false."""
+
+    def __init__(self, ctx, name, covered_by):
+        self.ctx, self.name, self.covered_by = ctx, name, covered_by
+
+    def __enter__(self):
+        return self
+
+    def __exit__(self, et, ev, tb):
+        if et is not None and issubclass(et, AnalysisError):
+            self.ctx.note(f"{self.name}: shape not recognised ({str(ev)[:140]}); clause left to {self.covered_by}")
+            return True
+        return False
